@@ -16,7 +16,7 @@ from puresnmp.adt import (
     V3Flags,
 )
 from puresnmp.credentials import V3, Credentials
-from puresnmp.exc import NotInTimeWindow
+from puresnmp.exc import EngineOutOfSync
 from puresnmp.pdu import (
     PDU,
     BulkGetRequest,
@@ -78,10 +78,10 @@ class V3MPM(MessageProcessingModel[V3EncodingResult, TV3SecModel]):
             msg = self.security_model.process_incoming_message(
                 message, credentials
             )
-        except NotInTimeWindow:
-            # Our notion of the remote engine boots/time is outdated (f.ex.
-            # because the device rebooted). Forget it so that the next request
-            # runs the discovery again.
+        except EngineOutOfSync:
+            # Our notion of the remote engine (id, boots, time) is outdated
+            # (f.ex. because the device rebooted) or was wrong to begin with.
+            # Forget it so that the next request runs the discovery again.
             self.disco = None
             raise
         return msg.scoped_pdu.data
